@@ -11,6 +11,7 @@ EXPLANATION = (
     "(R4) the wildcard branch of update_from recurses with exactly one path segment removed and literal keys recurse with exactly the "
     "matched number of segments removed. "
     '(R2 also: an included configuration reaches every module created before and after the include; R5) compartmentalize_map rewrites nested wildcard keys inside the compartment obtained with entry(..).or_insert(..) - an existing compartment is extended, never rebuilt or shallow-merged - and stores the leaf under the key remainder. '
+    '(R4 also: with the path exhausted every entry without a wildcard in its key becomes a property, whatever its value.) '
     "Decides these necessary conditions only; not the iff over all configurations.")
 ASSUMPTIONS = ["serde_yml::Mapping::get / keys behave as documented"]
 
